@@ -32,6 +32,8 @@ m("C03","readuint32-via-read","encoding/wkbcommon/binary.go","	var buf [4]byte\n
 m("C03","fixed-byte-order","encoding/wkb/wkb.go","		flatCoords, err := wkbcommon.ReadFlatCoords1(r, byteOrder, layout.Stride())","		flatCoords, err := wkbcommon.ReadFlatCoords1(r, NDR, layout.Stride())","byte-order-threaded/encoding/wkb.Read")
 m("C03","scan-no-type-check","encoding/ewkb/sql.go","	p1, ok := got.(*geom.Point)\n	if !ok {\n		return wkbcommon.ErrUnexpectedType{Got: p1, Want: p}\n	}\n	p.Point = p1","	p1, _ := got.(*geom.Point)\n	p.Point = p1","sql-wrappers/(*encoding/ewkb.Point).Scan")
 # ---- C04
+m("C04","count-through-binary-read","encoding/ewkb/ewkb.go","	case wkbcommon.MultiPointID:\n		n, err := wkbcommon.ReadUInt32(r, byteOrder)\n		if err != nil {\n			return nil, err\n		}\n		if limit := wkbcommon.MaxGeometryElements[1]; limit >= 0 && uint64(n) > uint64(limit) {\n			return nil, wkbcommon.ErrGeometryTooLarge{Level: 1, N: int(n), Limit: limit}\n		}\n","	case wkbcommon.MultiPointID:\n		var n uint32\n		if err := binary.Read(r, byteOrder, &n); err != nil {\n			return nil, err\n		}\n","integers-through-primitives/encoding/ewkb")
+m("C04","count-assembled-from-bytes","encoding/ewkb/ewkb.go","	case wkbcommon.MultiPointID:\n		n, err := wkbcommon.ReadUInt32(r, byteOrder)\n		if err != nil {\n			return nil, err\n		}\n		if limit := wkbcommon.MaxGeometryElements[1]; limit >= 0 && uint64(n) > uint64(limit) {\n			return nil, wkbcommon.ErrGeometryTooLarge{Level: 1, N: int(n), Limit: limit}\n		}\n","	case wkbcommon.MultiPointID:\n		var n uint32\n		for range 4 {\n			b, err := wkbcommon.ReadByte(r)\n			if err != nil {\n				return nil, err\n			}\n			n = n<<8 | uint32(b)\n		}\n","count-guard/encoding/ewkb.Read/ReadByte")
 m("C04","revert-count-fits-int","encoding/wkbcommon/wkbcommon.go","	if maxN := math.MaxInt / 8 / max(stride, 1); uint64(n) > uint64(maxN) {\n		return nil, ErrGeometryTooLarge{Level: 1, N: int(n), Limit: maxN}\n	}\n","	_ = math.MaxInt\n","size-arithmetic-fits-int/encoding/wkbcommon.ReadFlatCoords1")
 m("C04","no-limit-rings","encoding/wkbcommon/wkbcommon.go","	if limit := MaxGeometryElements[2]; limit >= 0 && uint64(n) > uint64(limit) {\n		return nil, nil, ErrGeometryTooLarge{Level: 2, N: int(n), Limit: limit}\n	}\n","","count-guard/encoding/wkbcommon.ReadFlatCoords2")
 m("C04","make-before-limit","encoding/wkbcommon/wkbcommon.go","	if limit := MaxGeometryElements[1]; limit >= 0 && uint64(n) > uint64(limit) {\n		return nil, ErrGeometryTooLarge{Level: 1, N: int(n), Limit: limit}\n	}\n	// The array holds","	scratch := make([]float64, int(n)*stride)\n	_ = scratch\n	if limit := MaxGeometryElements[1]; limit >= 0 && uint64(n) > uint64(limit) {\n		return nil, ErrGeometryTooLarge{Level: 1, N: int(n), Limit: limit}\n	}\n	// The array holds","count-guard/encoding/wkbcommon.ReadFlatCoords1")
